@@ -70,14 +70,25 @@ func (c *Claim) String() string {
 type ClaimPtrsByDate []*Claim
 
 func (cl ClaimPtrsByDate) Len() int           { return len(cl) }
-func (cl ClaimPtrsByDate) Less(i, j int) bool { return cl[i].Date.Before(cl[j].Date) }
+func (cl ClaimPtrsByDate) Less(i, j int) bool { return claimLess(cl[i], cl[j]) }
 func (cl ClaimPtrsByDate) Swap(i, j int)      { cl[i], cl[j] = cl[j], cl[i] }
 
 type ClaimsByDate []Claim
 
 func (cl ClaimsByDate) Len() int           { return len(cl) }
-func (cl ClaimsByDate) Less(i, j int) bool { return cl[i].Date.Before(cl[j].Date) }
-func (cl ClaimsByDate) Swap(i, j int)      { cl[i], cl[j] = cl[j], cl[i] }
+func (cl ClaimsByDate) Less(i, j int) bool { return claimLess(&cl[i], &cl[j]) }
+
+// claimLess orders claims by date and, for equal dates, by blobref: the
+// order of the index's claim rows. Without the tie-break the relative order
+// of equally dated claims (and with it the attribute values they fold to)
+// depended on the order in which they happened to arrive.
+func claimLess(a, b *Claim) bool {
+	if !a.Date.Equal(b.Date) {
+		return a.Date.Before(b.Date)
+	}
+	return a.BlobRef.Less(b.BlobRef)
+}
+func (cl ClaimsByDate) Swap(i, j int) { cl[i], cl[j] = cl[j], cl[i] }
 
 func (cl ClaimsByDate) String() string {
 	var buf bytes.Buffer
